@@ -74,9 +74,28 @@ def _loops_calling(ctx, f, names):
     return out
 
 
-def _over_all_files(lp):
+def _over_all_files(lp, call=None):
+    """the loop runs over the whole workspace table and (when `call` is given) the phase call is
+    not under a condition inside the loop body - `if path != changed: ...` skips a file"""
     it = lp.iter
-    return isinstance(it, ast.Call) and isinstance(it.func, ast.Attribute) and it.func.attr in ("items", "values") and access_path(it.func.value) and access_path(it.func.value).endswith("workspace")
+    whole = isinstance(it, ast.Call) and isinstance(it.func, ast.Attribute) and it.func.attr in ("items", "values") and access_path(it.func.value) and access_path(it.func.value).endswith("workspace")
+    if not whole or call is None:
+        return bool(whole)
+
+    def path_to(node, target):
+        if node is target:
+            return [node]
+        for ch in ast.iter_child_nodes(node):
+            p = path_to(ch, target)
+            if p:
+                return [node] + p
+        return None
+
+    for st in lp.body:
+        p = path_to(st, call)
+        if p:
+            return not any(isinstance(x, (ast.If, ast.IfExp, ast.Try, ast.While, ast.BoolOp)) for x in p[:-1]) and not any(isinstance(x, (ast.Continue, ast.Break)) for b in lp.body for x in ast.walk(b))
+    return False
 
 
 def r2(ctx, R):
@@ -121,8 +140,8 @@ def r2(ctx, R):
         R.violation("C15.R2", f.short, "include and link phases", loc(f, f.node), "start-up lacks a resolve_includes loop and/or a resolve_links loop over the workspace")
         return
     (ilp, ic), (llp, lc) = inc[0], lnk[0]
-    for nm, lp in (("resolve_includes", ilp), ("resolve_links", llp)):
-        if _over_all_files(lp):
+    for nm, lp, pc in (("resolve_includes", ilp, ic), ("resolve_links", llp, lc)):
+        if _over_all_files(lp, pc):
             R.ok("C15.R2", f.short, f"{nm} over every workspace file", loc(f, lp))
         else:
             R.violation("C15.R2", f.short, f"{nm} over every workspace file", loc(f, lp), f"{nm} does not run over all files of the workspace ({unparse(lp.iter)})")
@@ -148,11 +167,11 @@ def r3(ctx, R):
             R.violation("C15.R3", f.short, "global re-link", loc(f, f.node), "saving/opening a file does not re-link the workspace: links into the new version of the file are missing, links into the old one survive")
             continue
         llp, lc = lnk[0]
-        if _over_all_files(llp):
+        if _over_all_files(llp, lc):
             R.ok("C15.R3", f.short, "resolve_links over every workspace file", loc(f, llp))
         else:
-            R.violation("C15.R3", f.short, "resolve_links over every workspace file", loc(f, llp), f"only {unparse(llp.iter)} is re-linked after a file changed: other files keep links to the old objects, so the index differs from a fresh start")
-        if inc and _over_all_files(inc[0][0]) and inc[0][0].lineno < llp.lineno:
+            R.violation("C15.R3", f.short, "resolve_links over every workspace file", loc(f, llp), (f"only {unparse(llp.iter)} is re-linked after a file changed" if not _over_all_files(llp) else "the re-link call is conditional inside the loop, so some files (e.g. the saved one) are skipped") + ": links that depend on what the include phase just grafted, or on the other files' new objects, are missing - the index differs from a fresh start")
+        if inc and _over_all_files(inc[0][0], inc[0][1]) and inc[0][0].lineno < llp.lineno:
             R.ok("C15.R3", f.short, "includes of every file refreshed before linking", loc(f, inc[0][0]))
         else:
             R.violation("C15.R3", f.short, "includes of every file refreshed before linking", loc(f, llp), "INCLUDE statements pointing at the changed file are not refreshed for all files before links are resolved")
